@@ -13,6 +13,7 @@ import GitAiModel.Driver.BlameOverlay
 import GitAiModel.Driver.Remap
 import GitAiModel.Driver.Redact
 import GitAiModel.Driver.Routing
+import GitAiModel.Driver.Profile
 namespace GitAi.Driver
 open Lean
 
@@ -27,7 +28,8 @@ def handlers : List (String → Json → Option (Except String Json)) := [
   BlameOverlayD.handle,
   RemapD.handle,
   RedactD.handle,
-  RoutingD.handle
+  RoutingD.handle,
+  ProfileD.handle
 ]
 
 end GitAi.Driver
